@@ -21,7 +21,7 @@ def Op(op: str, f: int, o: int = 0, a: int = 0, when: int = 0) -> dict:
 def Con(role: str, err: str = "default", lam: bool = False, truth: Sequence[bool] = T3, rv: str = "bool",
         script: Sequence[dict] = (), escript: Sequence[dict] = ()) -> dict:
     return {"role": role, "err": err, "lam": lam, "truth": list(truth), "rv": rv, "script": list(script),
-            "escript": list(escript)}
+            "escript": list(escript), "noold": False}
 
 
 def Snp(val: int, rv: str = "bool", script: Sequence[dict] = ()) -> dict:
@@ -318,6 +318,21 @@ def fam_err(tier: str, rng: random.Random) -> Iterator[dict]:
                                                 isasync, tag="err-post")
                                 if p is not None:
                                     yield p
+                                if nsnap and p is not None:
+                                    # the condition does not name OLD, the error (factory) does
+                                    q = json_copy(p)
+                                    q["con"][0]["noold"] = True
+                                    q["tag"] = "err-post-noold"
+                                    yield q
+    # the same contract violated repeatedly: the instance / factory result identity must hold every time
+    for kind in ("func", "method", "setter"):
+        for role in ("pre", "post"):
+            for form in ("inst", "factory", "class", "default"):
+                for isasync in (False, True):
+                    p = member_prog(kind, False, [[1]] if role == "pre" else [], 1 if role == "post" else 0, 0, [False],
+                                    [False], [form], False, isasync, ncalls=3, tag="err-repeat")
+                    if p is not None:
+                        yield p
 
 
 def fam_order(tier: str, rng: random.Random) -> Iterator[dict]:
